@@ -330,6 +330,9 @@ def run(ctx):
     dtexact_rule(ctx, syn)
     alwaysid_rule(ctx)
     rawtext_rule(ctx)
+    resolve_rule(ctx)
+    order_rule(ctx, syn)
+    extagree_rule(ctx, syn)
     from props.c11 import name_rule
     name_rule(ctx, rid="C05.NAME")   # to_file(name) / from_file(name): the manifest or store file is written under the name given
     mir_rules(ctx)
@@ -675,3 +678,83 @@ def rawtext_rule(ctx, rid="C05.RAWTEXT"):
         r.hit("read#%d" % bi, sample={"buffer": buf, "edits_after_reading": [m_[0] for m_ in muts]})
         for name, line in muts[:1]:
             ctx.report(r, "edited:%s" % name, "TextResourceBuilder::build calls String::%s on the text it has just read from the stand-off file: the loaded text differs from the written one, so the round trip changes the text, its length and what every offset selects" % name, b.file, line)
+
+
+# ---------------------------------------------------------------------- RESOLVE
+def resolve_rule(ctx, rid="C05.RESOLVE"):
+    """a stand-off file is written where get_filepath(name, workdir) says and has to be read from there: every
+    File::open / File::create of the crate's file helpers takes a path that derives from get_filepath on every path
+    (a reader that first tries the name as given finds a same-named file in the current directory instead)."""
+    import mirq
+    r = ctx.rule(rid, "every File::open / File::create in src/file.rs opens a path that comes from get_filepath(filename, workdir): readers and writers resolve a stand-off name the same way")
+    prog = mirq.Program(ctx.facts.mir())
+    n = 0
+    for bid, b in sorted(prog.bodies.items()):
+        if b.file != "src/file.rs" or b.d.get("derived"):
+            continue
+        for bi, t in b.calls():
+            d = mirq.callee_of(t)[0] or ""
+            if d in ("std::fs::File::open", "std::fs::File::create") and t.get("args"):
+                n += 1
+                prov = b.provenance(t["args"][0])
+                gets = [bj for bj, t2 in b.calls() if (mirq.callee_of(t2)[0] or "").endswith("file::get_filepath")]
+                # ... on every path: a call of get_filepath dominates the open, and the path opened derives from it
+                okp = any(p_.endswith("file::get_filepath") for p_ in prov) and any(b.dominates(g_, bi) for g_ in gets)
+                r.hit("%s|%s#%d" % (mirq.short_fn(bid), d.split("::")[-1], n), sample={"fn": mirq.short_fn(bid), "call": d.split("::")[-1], "path_from_get_filepath": okp})
+                if not okp:
+                    ctx.report(r, "%s|%s-unresolved" % (mirq.short_fn(bid), d.split("::")[-1]), "%s calls %s on a path that does not come from get_filepath (%s): a relative stand-off name is then taken relative to the current directory, not to the store - a same-named file there is read instead of the one the store wrote" % (bid, d, str(b.key_of_operand(t["args"][0]))[:50]), b.file, t.get("line"))
+    ctx.floor(r, n, 2, "File::open / File::create calls in src/file.rs")
+
+
+# ---------------------------------------------------------------------- ORDER
+REORDER = {"sort", "sort_by", "sort_by_key", "sort_unstable", "sort_unstable_by", "sort_unstable_by_key", "sort_by_cached_key", "reverse", "rev", "dedup", "dedup_by", "dedup_by_key"}
+
+
+def order_rule(ctx, syn, rid="C05.ORDER"):
+    """the reader re-creates lists in file order (an annotation's data, a dataset's keys and data, whose positions are
+    their temporary ids): a JSON writer that sorts, reverses or groups what it writes changes the order of the reloaded
+    lists.  No Serialize::serialize of the crate re-orders (C11.ORDER says the same of the CBOR helpers)."""
+    r = ctx.rule(rid, "no serde Serialize::serialize implementation of the crate sorts, reverses or de-duplicates the collection it writes")
+    n = 0
+    for fn in syn.fns:
+        if fn.name != "serialize" or not fn.body or "Serialize" not in (fn.trait or ""):
+            continue
+        n += 1
+        ctx.functions_analysed.add(fn.qual)
+        for c in walk(fn.body):
+            if c.get("k") == "mcall" and c["method"] in REORDER:
+                ctx.report(r, "%s|%s" % (fn.qual, c["method"]), "%s calls .%s() on what it writes: the list comes back from the file in another order than the store holds it (data(), data_by_index(), positional temporary ids)" % (fn.qual, c["method"]), fn.file, c.get("l"))
+    r.hit("writers", sample={"serialize_implementations": n})
+    ctx.floor(r, n, 10, "Serialize implementations")
+
+
+# ---------------------------------------------------------------------- EXTAGREE
+def extagree_rule(ctx, syn, rid="C05.EXTAGREE"):
+    """whether a stand-off resource file holds STAM JSON or plain text is decided twice, from its name: by the writer
+    (Serialize for TextResource) and by the reader (TextResourceBuilder::build).  The two tests must be the same
+    predicate - same suffix, same case sensitivity - or a file is written in one format and read as the other."""
+    r = ctx.rule(rid, "the writer and the reader of a stand-off resource file decide `is this STAM JSON` with the same test on the file name (same suffix literal, same case sensitivity)")
+    sides = {}
+    for fn in syn.fns:
+        if fn.file != "src/resources.rs" or not fn.body:
+            continue
+        side = "writer" if (fn.name == "serialize" and (fn.self_ty or "") == "TextResource") else "reader" if (fn.name == "build" and (fn.self_ty or "") == "TextResourceBuilder") else None
+        if not side:
+            continue
+        tests = [nd["cond"] for nd in walk(fn.body) if nd.get("k") == "if"] + [nd["init"] for nd in walk(fn.body) if nd.get("k") == "let" and nd.get("init") is not None]
+        for cond in tests:
+            if True:
+                nd = cond
+                src = unparse(cond)
+                lits = [l_ for l_ in str_lits(cond) if "json" in l_.lower()]
+                if lits and len(src) < 400:
+                    ci = any(x in src for x in ("eq_ignore_ascii_case", "to_lowercase", "to_ascii_lowercase", "to_uppercase", "to_ascii_uppercase"))
+                    how = "extension" if ".extension()" in src.replace(" ", "") else "ends_with" if "ends_with" in src else "other"
+                    sides.setdefault(side, []).append((tuple(sorted(l_.lower().lstrip(".") for l_ in lits)), ci, how, nd.get("l"), fn))
+    if "writer" not in sides or "reader" not in sides:
+        ctx.anchor_missing(r, "the .json test in Serialize for TextResource / TextResourceBuilder::build")
+        return
+    w, rd = sides["writer"][0], sides["reader"][0]
+    r.hit("json-test", sample={"writer": {"case_insensitive": w[1], "how": w[2]}, "reader": {"case_insensitive": rd[1], "how": rd[2]}})
+    if w[0] != rd[0] or w[1] != rd[1]:
+        ctx.report(r, "writer-reader-differ", "the writer of a stand-off resource decides `STAM JSON` by %s (%s), the reader by %s (%s): for a name on which the two disagree (NOTES.JSON) the file is written in one format and read as the other - the JSON source becomes the text" % (w[2], "ignoring case" if w[1] else "case-sensitive", rd[2], "ignoring case" if rd[1] else "case-sensitive"), w[4].file, w[3])
